@@ -184,8 +184,10 @@ class PendingIf(_PendingCompoundStmt[If]):
         orelse = self.nsp_global.expr_wraper(self.converted_orelse)
         if self.nsp_global.configs.if_style == "short_circuit":
             if len(self.converted_orelse) > 0:
-                body_or_true = BoolOp(op=Or(), values=[body, Constant(value=1)])
-                semi_if = BoolOp(op=And(), values=[test, body_or_true])
+                # a one-element list is always true: the truth value of the body's
+                # value (which may be any object) is never taken
+                body_in_list = List(elts=[body], ctx=Load())
+                semi_if = BoolOp(op=And(), values=[test, body_in_list])
                 return [BoolOp(op=Or(), values=[semi_if, orelse])]
             else:
                 return [BoolOp(op=And(), values=[test, body])]
